@@ -11,6 +11,7 @@ package reader
 
 import (
 	"math"
+	"sync"
 
 	"github.com/milvus-io/milvus-proto/go-api/v2/msgpb"
 	"github.com/milvus-io/milvus/pkg/mq/msgstream"
@@ -108,7 +109,7 @@ func c03CheckPack(out *api.ReplicateMsg, srcs []c03Src, ltsPre uint64, first boo
 	}
 	if len(data) > 0 {
 		vAssert(vAnd(p.BeginTs == data[0].EndTs(), p.EndTs == data[len(data)-1].EndTs()), "C03.pack-bounds-are-first-and-last-message-time"+tag)
-		vAssert(tick == p.EndTs, "C03.closing-tick-of-a-data-pack-is-its-end"+tag)
+		vAssert(tick >= p.EndTs, "C03.closing-tick-not-before-the-pack-end"+tag)
 		for _, pos := range p.StartPositions {
 			vAssert(pos.Timestamp == p.BeginTs, "C03.start-position-time-equals-pack-begin"+tag)
 		}
@@ -192,6 +193,194 @@ func VerifC03_History() {
 		vAssert(ti.lts == tick, "C03.last-sent-tick-recorded")
 		lastTick = tick
 		emitted++
+	}
+	vReach("end")
+}
+
+// ---------------------------------------------------------------------------------
+// Interference. handlePack reads the channel clock, shifts the pack, and only then
+// takes the channel lock; streams sharing the downstream channel run in between.
+// The hooks below are harness functions the executor (and, natively, an overlay
+// wrapper) runs around the real tsManager lock / send functions. They do nothing
+// unless an entry switches them on.
+
+var (
+	c03EnvOn           bool // havoc the channel clock right after the pack took the lock
+	c03EnvTi           *tsInfo
+	c03LockCts         uint64
+	c03LockLts         uint64
+	c03EnvRan          bool
+	c03GateOn          bool // two-goroutine entry: force the order of locked phases and sends
+	c03Mu              sync.Mutex
+	c03Roles           map[int]int
+	c03LockFirst       int
+	c03SendFirst       int
+	c03Unlocked, c03Sent [2]chan struct{}
+	c03UnlockedF, c03SentF [2]bool
+	c03LockGated           [2]bool
+)
+
+func c03BeforeLock(m *tsManager, channelName string) {
+	if !c03GateOn {
+		return
+	}
+	// the gate sits at the FIRST channel-lock operation of the pack (whatever lock the
+	// implementation takes first), so the forced order does not depend on lock layout
+	r := c03Role()
+	if r < 0 || c03LockGated[r] {
+		return
+	}
+	c03LockGated[r] = true
+	if r != c03LockFirst {
+		<-c03Unlocked[c03LockFirst]
+	}
+}
+
+func c03AfterLock(m *tsManager, channelName string) {
+	if !c03EnvOn || channelName != FormatChanKey(rRID, rTgtP) {
+		return
+	}
+	c03EnvOn = false
+	// Everything other streams of the channel can have done since this pack read the
+	// clock: the clock and the last tick only move forward, last tick <= clock.
+	ti := c03EnvTi
+	cts2, lts2 := vU64("env.cts"), vU64("env.lts")
+	vAssume(vAnd(vAnd(cts2 >= ti.cts, lts2 >= ti.lts), vAnd(lts2 <= cts2, cts2 < c03Lim)))
+	ti.cts, ti.lts = cts2, lts2
+	c03LockCts, c03LockLts = cts2, lts2
+	c03EnvRan = true
+}
+
+func c03CloseOnce(chs *[2]chan struct{}, flags *[2]bool, r int) {
+	c03Mu.Lock()
+	if !flags[r] {
+		flags[r] = true
+		close(chs[r])
+	}
+	c03Mu.Unlock()
+}
+
+func c03AfterUnlock(m *tsManager, channelName string) {
+	if c03GateOn && channelName == FormatChanKey(rRID, rTgtP) {
+		if r := c03Role(); r >= 0 {
+			c03CloseOnce(&c03Unlocked, &c03UnlockedF, r)
+		}
+	}
+}
+
+func c03BeforeSend(m *tsManager, channelName string, msg *api.ReplicateMsg) {
+	if !c03GateOn {
+		return
+	}
+	if r := c03Role(); r >= 0 && r != c03SendFirst {
+		<-c03Sent[c03SendFirst]
+	}
+}
+
+func c03AfterSend(m *tsManager, channelName string, msg *api.ReplicateMsg) {
+	if c03GateOn {
+		if r := c03Role(); r >= 0 {
+			c03CloseOnce(&c03Sent, &c03SentF, r)
+		}
+	}
+}
+
+func c03Role() int {
+	c03Mu.Lock()
+	defer c03Mu.Unlock()
+	if r, ok := c03Roles[vGoID()]; ok {
+		return r
+	}
+	return -1
+}
+
+// VerifC03_Interference: the inductive step under interference. Arbitrary clock, one
+// real handlePack; between the pack's unlocked phase (reading the clock, shifting the
+// pack) and its locked phase the other streams of the channel advance the clock and
+// the last tick arbitrarily (rely: both only grow, last tick <= clock). Asserted: the
+// step conditions against the last tick in force when the lock was taken, and the
+// guarantee that makes the rely condition inductive (this step never moves the clock
+// or the last tick backwards either).
+func VerifC03_Interference() {
+	M := vParam("M", 2)
+	env, ti := c03Handler()
+	cts, lts := vU64("pre.cts"), vU64("pre.lts")
+	vAssume(vAnd(lts <= cts, cts < c03Lim))
+	ti.cts, ti.lts = cts, lts
+	n := vChoice("nmsgs", M+1)
+	pack, srcs := c03SourcePack("pack", 100, rSrcP+"_100v0", n)
+	c03EnvOn, c03EnvTi, c03EnvRan = true, ti, false
+	out := env.h.handlePack(false, pack, "task")
+	c03EnvOn = false
+	vAssert(out != nil, "C03.no-error-on-a-well-formed-pack")
+	vAssert(c03EnvRan, "C03.harness:interference-point-reached")
+	if out == nil || !c03EnvRan {
+		return
+	}
+	if out == api.EmptyMsgPack {
+		vAssert(n == 0, "C03.only-a-tick-only-pack-may-emit-nothing")
+		vAssert(vAnd(ti.lts == c03LockLts, ti.cts >= c03LockCts), "C03.silent-pack-keeps-the-last-tick:interference")
+		vReach("end")
+		return
+	}
+	tick := c03CheckPack(out, srcs, c03LockLts, c03LockLts == 0, ":interference")
+	vAssert(ti.lts == tick, "C03.last-sent-tick-recorded:interference")
+	vAssert(vAnd(ti.lts <= ti.cts, ti.cts >= c03LockCts), "C03.clock-never-moves-backwards:interference")
+	vReach("end")
+}
+
+// VerifC03_EnqueueOrder: two handlers (two source channels) sharing one downstream
+// channel, each handling one pack in its own goroutine through the real
+// innerHandleReplicateMsg. The order of the two locked phases and the order of the two
+// enqueue operations are chosen independently (gates at the lock / send hooks), which
+// covers the window between computing a pack and enqueueing it. The oracle reads the
+// downstream channel in the order the writer would.
+func VerifC03_EnqueueOrder() {
+	M := vParam("M", 1)
+	envA, ti := c03Handler()
+	envB := rNewHandler("src-dml_1", rTgtP)
+	envB.rRegister(200, &model.TargetCollectionInfo{CollectionID: 800, CollectionName: "coll2", DatabaseName: "db",
+		PartitionInfo: map[string]int64{"p": 811}, PChannel: rTgtP, VChannel: rTgtP + "_800v0",
+		PartitionBarrierChan: map[int64]*model.OnceWriteChan[*model.BarrierSignal]{}, DroppedPartition: map[int64]struct{}{}})
+	cts, lts := vU64("pre.cts"), vU64("pre.lts")
+	vAssume(vAnd(vAnd(lts <= cts, cts < c03Lim), lts >= 1)) // not the first pack of the channel
+	ti.cts, ti.lts = cts, lts
+	nA, nB := 1+vChoice("nmsgsA", M), 1+vChoice("nmsgsB", M)
+	packA, srcsA := c03SourcePack("packA", 100, rSrcP+"_100v0", nA)
+	packB, srcsB := c03SourcePack("packB", 200, "src-dml_1_200v0", nB)
+	c03Roles = map[int]int{}
+	c03LockFirst, c03SendFirst = vChoice("lockedPhaseFirst", 2), vChoice("enqueueFirst", 2)
+	for i := 0; i < 2; i++ {
+		c03Unlocked[i], c03Sent[i] = make(chan struct{}), make(chan struct{})
+		c03UnlockedF[i], c03SentF[i], c03LockGated[i] = false, false, false
+	}
+	c03GateOn = true
+	var wg sync.WaitGroup
+	run := func(role int, env *rHandlerEnv, msg *api.ReplicateMsg) {
+		defer wg.Done()
+		c03Mu.Lock()
+		c03Roles[vGoID()] = role
+		c03Mu.Unlock()
+		env.h.innerHandleReplicateMsg(false, msg)
+		// a pack that emitted nothing must not keep the other goroutine waiting
+		c03CloseOnce(&c03Unlocked, &c03UnlockedF, role)
+		c03CloseOnce(&c03Sent, &c03SentF, role)
+	}
+	wg.Add(2)
+	go run(0, envA, api.GetReplicateMsg(rSrcP, "coll", 100, packA, "task"))
+	go run(1, envB, api.GetReplicateMsg("src-dml_1", "coll2", 200, packB, "task"))
+	wg.Wait()
+	c03GateOn = false
+	ch := GetTSManager().GetTargetMsgChan(rRID, rTgtP)
+	vAssert(len(ch) == 2, "C03.both-data-packs-are-enqueued")
+	last := lts
+	for len(ch) > 0 {
+		o := <-ch
+		srcs := srcsA
+		if o.CollectionID == 200 {
+			srcs = srcsB
+		}
+		last = c03CheckPack(o, srcs, last, false, ":enqueue-order")
 	}
 	vReach("end")
 }
